@@ -47,7 +47,12 @@ def server_text(sess, path):
     return "".join(t for (_, _, t) in lsp.tree_text(r["result"])), None
 
 
-def blackbox(out, hists, seed, per_session=5):
+# what a client may announce in general.positionEncodings (None: nothing, as most clients do); the histories played in a
+# session are those written for the encoding that session agreed on (DocSync.Enc)
+OFFERS = [None, ["utf-8", "utf-16"], None, ["utf-32", "utf-16"], ["utf-16"]]
+
+
+def blackbox(out, hists, seed, per_session=5, by_enc=None, offers=None):
     """Each history is played on its own package (so that the first didOpen of a package is exercised every time);
     the file exists on disk with content `disk` which equals the opened text for even histories and differs for odd."""
     base = vlib.workdir("c13-bb")
@@ -57,9 +62,20 @@ def blackbox(out, hists, seed, per_session=5):
         root = os.path.join(base, f"s{s0}")
         os.makedirs(root)
         sess = lsp.Session(root, stderr_path=os.path.join(root, "stderr.log"))
+        offer = (offers or OFFERS)[(s0 // per_session) % len(offers or OFFERS)]
         try:
-            if sess.initialize() is None:
+            if sess.initialize(encodings=offer) is None:
                 raise vlib.ToolError("server did not answer initialize")
+            if sess.enc_announced is not None and sess.enc_announced not in (offer or ["utf-16"]):
+                out.report({"level": "server", "what": "server announced a position encoding the client did not offer"},
+                           {"offered": offer, "announced": sess.enc_announced, "blackbox": True, "case": {"hist": [], "table": 0}})
+                continue
+            if sess.enc != "utf-16":
+                # the histories written for the negotiated encoding
+                alt = (by_enc or {}).get(sess.enc)
+                if alt is None:
+                    raise vlib.ToolError("no DocSync histories for the negotiated encoding " + sess.enc)
+                group = alt[s0:s0 + per_session]
             for k, h in enumerate(group):
                 hi = s0 + k
                 tab = TABLES[(seed + hi) % len(TABLES)]
@@ -105,8 +121,9 @@ def blackbox(out, hists, seed, per_session=5):
                 out.cov["traces_validated_against_impl"] += 1
                 out.cov["evaluations"] += len(h["hist"])
                 if bad:
+                    feats["encoding"] = sess.enc
                     out.report(feats, {"case": {"hist": h["hist"], "table": (seed + hi) % len(TABLES),
-                                                "disk_differs": disk_differs}, "bad": bad, "blackbox": True})
+                                                "disk_differs": disk_differs, "enc": sess.enc, "offer": offer}, "bad": bad, "blackbox": True})
                 else:
                     n_ok += 1
                 if not sess.alive():
@@ -135,7 +152,16 @@ def run(out, tier, seed):
     if len(hists) < nbb:
         raise vlib.ToolError("simulation produced too few histories")
     hook_replay(out, hists, seed)
-    blackbox(out, hists[:nbb], seed)
+    # histories for the other encodings a session may agree on (played only if the server announces that encoding)
+    by_enc = {}
+    for enc in ("utf-8", "utf-32"):
+        r2 = vlib.tlc("DocSync", "DocSync_sim.cfg", workers=4, simulate=nsim, depth=111, seed=seed, timeout=1800, env={"DOCSYNC_ENC": enc}, name="docsync-sim-" + enc)
+        vlib.require_ok(r2, "DocSync simulation " + enc)
+        out.add_tlc(r2, "GEN simulated histories, columns in " + enc)
+        by_enc[enc] = list(r2.cases())[:nbb]
+        if len(by_enc[enc]) < nbb:
+            raise vlib.ToolError("simulation produced too few histories")
+    blackbox(out, hists[:nbb], seed, by_enc=by_enc)
     out.cov["exhaustive"] = True
     out.cov["rule"] = ("TLC enumerates every (document, valid range, replacement) transition of DocSync within the bounds of %s "
                        "(one case per transition) and checks InSync on the model; each case is applied to glas' Vfs through the "
@@ -149,6 +175,9 @@ def run(out, tier, seed):
 def replay(out, path):
     d = json.load(open(path))["detail"]
     if d.get("blackbox"):
-        blackbox(out, [{"hist": d["case"]["hist"]}] * (2 if d["case"].get("disk_differs") else 1), d["case"]["table"] - (1 if d["case"].get("disk_differs") else 0), per_session=2)
+        hs = [{"hist": d["case"]["hist"]}] * (2 if d["case"].get("disk_differs") else 1)
+        enc = d["case"].get("enc", "utf-16")
+        blackbox(out, hs, d["case"]["table"] - (1 if d["case"].get("disk_differs") else 0), per_session=2,
+                 by_enc={enc: hs}, offers=[d["case"].get("offer")])
     else:
         hook_replay(out, [d["case"]], 1)
